@@ -664,8 +664,9 @@ def r11_d(ctx):
     if not tests:
         rr.fail(Finding('R11.d', 'reader', fd.qual, 'no prefix test for the closer', 'the raw reader never tests for the '
                         'closer of the environment', line=fd.node.lineno))
+    from .model import resolve_locals
     for tcall in tests:
-        a = tcall.args[0] if tcall.args else None
+        a = resolve_locals(fd.node, tcall.args[0]) if tcall.args else None
         okf = isinstance(a, ast.BinOp) and isinstance(a.op, ast.Mod) and isinstance(a.left, ast.Constant) and a.left.value in fmts \
             and isinstance(a.right, ast.Attribute) and a.right.attr == 'name'
         okf = okf or (isinstance(a, ast.Attribute) and a.attr == 'end')
